@@ -10,7 +10,9 @@ Open Scope N_scope.
 Record cver := mkCV {
   c_tag : N; c_minz : N; c_maxz : N; c_ext : N;       (* c_ext: code of the extension the tile type requires, 0 = no check *)
   c_root : N * N; c_leaf_base : N; c_tile_base : N;
-  c_dirs : dir_table; c_file : bytes }.
+  c_dirs : dir_table; c_file : bytes;
+  c_meta_off : N; c_meta_len : N;                     (* metadata section of the header *)
+  c_metabody : bytes; c_jsonbody : bytes }.           (* what /name/metadata and /name.json answer for this version alone *)
 
 Definition c_lookup (v:cver) (o l id:N) : look :=
   match lookup_dir (c_dirs v) o l with
@@ -24,7 +26,8 @@ Definition c_lookup (v:cver) (o l id:N) : look :=
   ver := cver; vtag := c_tag;
   zoom_ok := fun v z => (c_minz v <=? z) && (z <=? c_maxz v);
   ext_ok := fun v e => (c_ext v =? 0) || (e =? c_ext v);
-  root := c_root; dir_lookup := c_lookup; leaf_base := c_leaf_base; tile_base := c_tile_base }.
+  root := c_root; dir_lookup := c_lookup; leaf_base := c_leaf_base; tile_base := c_tile_base;
+  meta_off := c_meta_off; meta_len := c_meta_len }.
 
 (* ---- the loop's byte accounting and LRU list (server.go:115-123,131-133,211-229), kept beside the abstract state.
    Elements carry an id because re-inserting a cached key leaves the old element in the list as an orphan whose later
@@ -126,7 +129,7 @@ Definition root_fetch_len : N := Z.to_N Generated.root_fetch_len.
 Definition call_of_key (k:key) : N * N * N * N :=
   if (ko k =? 0) && (kl k =? 0) then (kn k, ke k, 0, root_fetch_len) else (kn k, ke k, ko k, kl k).
 Definition call_of_handler (h:hstate) : option (N * N * N * N) :=
-  match h with HWaitTile q a hv o l => Some (t_name q, vtag hv, tile_base hv + o, l) | _ => None end.
+  match h with HWaitTile q a hv o l => Some (t_name q, vtag hv, rbase hv q + o, l) | _ => None end.
 Definition call_eqb (a b:N*N*N*N) : bool :=
   let '(a1,a2,a3,a4) := a in let '(b1,b2,b3,b4) := b in (a1 =? b1) && (a2 =? b2) && (a3 =? b3) && (a4 =? b4).
 Definition pending_calls (s:sys) : list (N*N*N*N) :=
@@ -137,6 +140,7 @@ Definition pending_calls (s:sys) : list (N*N*N*N) :=
 Inductive fkind := FError | FNotFound | FRefresh | FCanceled | FMidstream | FBadBytes.
 Inductive mstep :=
 | MStart (rid:nat) (name z x y ext:N)
+| MStartMeta (rid:nat) (name kind:N)   (* kind 1 = /name/metadata, 2 = /name.json *)
 | MRelease (name etag o l:N)          (* the gate lets one blocked call with these arguments proceed *)
 | MFault (name etag o l:N) (kind:fkind) (* ... or makes it fail *)
 | MReplace (name:N) (v:cver)
@@ -152,7 +156,8 @@ Definition macro (x:xstate) (m:mstep) : option xstate :=
   let s := x_sys x in
   option_map (settle fuel)
   (match m with
-  | MStart rid name z x' y ext => on_sys x (exec s (LStart rid (mkQ name z ext (zxy_to_id z x' y))))
+  | MStart rid name z x' y ext => on_sys x (exec s (LStart rid (mkQ name z ext (zxy_to_id z x' y) 0)))
+  | MStartMeta rid name kind => on_sys x (exec s (LStart rid (mkQ name 0 0 0 kind)))
   | MRelease name etag o l =>
       match find_fetch (name, etag, o, l) s with
       | Some k => on_sys x (exec s (LFetchDo k))
@@ -179,8 +184,8 @@ Definition macro (x:xstate) (m:mstep) : option xstate :=
   end).
 
 (* responses as the HTTP client sees them: status and body *)
-Definition status_body (r:resp) : N * bytes :=
+Definition status_body (q:treq) (r:resp) : N * bytes :=
   match r with
-  | R200 v o l => (200, slice (c_file v) o l)
+  | R200 v o l => (200, if t_kind q =? 0 then slice (c_file v) o l else if t_kind q =? 1 then c_metabody v else c_jsonbody v)
   | R204 => (204, []) | R404 => (404, []) | R400 => (400, []) | R500 => (500, [])
   end.
